@@ -29,6 +29,8 @@ func Lookup(id string) sim.Property {
 		return C01{}
 	case "C04":
 		return C04{}
+	case "C02":
+		return C02{}
 	case "C08":
 		return C08{}
 	}
